@@ -424,11 +424,12 @@ def ref(e, row, params, k3=False):
         a, b = R(e[2]), R(e[3])
         if a is None or b is None: return None
         try:
-            if e[1] == '+': return int(a + b)
-            if e[1] == '-': return int(a - b)
-            if e[1] == '*': return int(a * b)
-            if e[1] == '//': return int(a // b)
-            if e[1] == '%': return int(a % b)
+            norm = lambda r: int(r) if isinstance(r, (bool, int)) else r      # bool arithmetic gives int; floats stay floats
+            if e[1] == '+': return norm(a + b)
+            if e[1] == '-': return norm(a - b)
+            if e[1] == '*': return norm(a * b)
+            if e[1] == '//': return norm(a // b)
+            if e[1] == '%': return norm(a % b)
             if e[1] == '/':
                 q = a / b
                 return int(q) if q == int(q) else q
